@@ -1,3 +1,43 @@
-From YV Require Import PyBase Token.
-Example c05_smoke : skip_space [] = [].
-Proof. reflexivity. Qed.
+(* C05 -- text flow is preserved: no paragraph break invented or lost, no
+   words glued.  Only statements here, closed by `exact`.  Model:
+   coq/model/Rpal.v (Parser.remove_pure_action_lines), the pass that keeps a
+   line which became blank only because markup vanished from turning into a
+   paragraph break.
+
+   Proved for every token list: the pass terminates; it deletes white space
+   only (every other character survives, in order); and where no markup
+   vanished (no action token) it deletes nothing at all, so a line that was
+   blank in the source stays.  Not proved: that exactly the lines emptied by
+   markup are removed and that the expander leaves an action token for every
+   construct that vanishes; decided on the C05 stream by the paragraph
+   oracle of harness/props/c05.py and the correspondence run. *)
+From YV Require Import PyBase CharTables Token Rpal RpalProofs.
+Open Scope Z_scope.
+
+Theorem C05_pass_total : forall is_space tokens,
+  exists r, remove_pure_action_lines is_space tokens = Ok r.
+Proof. exact rpal_total. Qed.
+Print Assumptions C05_pass_total.
+
+Theorem C05_only_white_space_deleted : forall is_space,
+  is_space c_nl = true ->
+  forall tokens r,
+  Forall E0 tokens ->
+  remove_pure_action_lines is_space tokens = Ok r ->
+  nst is_space r = nst is_space tokens.
+Proof. exact rpal_conserves. Qed.
+Print Assumptions C05_only_white_space_deleted.
+
+Theorem C05_source_blank_lines_stay : forall is_space tokens,
+  Forall (fun t => is_action t = false) tokens ->
+  remove_pure_action_lines is_space tokens = Ok (filter keep_out tokens).
+Proof. exact rpal_no_action. Qed.
+Print Assumptions C05_source_blank_lines_stay.
+
+(* a line emptied by a label goes, the blank line of the source stays *)
+Example C05_nonvacuous :
+  exists r, remove_pure_action_lines py_isspace
+              [TextT 0 [97]%N; SpaceT 1 [10]%N; ActionT 2; SpaceT 9 [10]%N;
+               TextT 10 [98]%N; mk KPar 11 [10; 10]%N false; TextT 13 [99]%N] = Ok r
+            /\ flat_map txt r = [97; 10; 98; 10; 10; 99]%N.
+Proof. eexists. split; reflexivity. Qed.
